@@ -46,12 +46,34 @@
                                          columns and without baseline-aligned children, and FAILS for a row with two baseline-aligned
                                          children: calculate_children_base_lines (flexbox.rs l.1440) performs child layouts before the
                                          ComputeSize return of l.359 -- a second source of the C01 "ComputeSize scribble" finding
+   GRID ALGORITHM as a resumption (Model/GridAlg.v: ALL of compute_grid_layout over the engine interface -- the item contribution
+   protocol of grid_item.rs / track_sizing.rs with its caches, resolve_item_baselines, the re-runs of track sizing, the final passes;
+   validated event by event, bit for bit, against the implementation by `vh gridalg cases`, lib/props/_gridalg.py):
+     C05_grid_algorithm_shape            the traffic: ComputeSize queries to in-flow children only; PerformLayout queries / stored layouts
+                                         only on children that are not display:none; on a display:none child only the CANONICAL hidden
+                                         query, its answer ignored, followed by Layout::with_order(n)
+     C05_grid_model_loops_are_source     the tests of the model's final loop ARE the conditions of the source's (translated on every run); the
+                                         translator checked the hidden branch (canonical pair) and the node-addressing tree calls of the grid sources
+     C05_grid_sizing_guard_never_fires   the sizing phase (steps 1-7) addresses in-flow children only: the guard of Model/GridAlg.v `run` is
+                                         redundant
+     C05_grid_algorithm_hidden_blind     HiddenBlind HOLDS for it (no longer a premise for grid containers)
+     C05_grid_algorithm_sets_zero_on_hidden   so does SetsZeroOnHidden
+     C05_grid_engine_hidden_invisible    hence the conclusion of C05_hidden_blind_engine for every engine of grid containers and leaves
+     C05_taffy_engine_hidden_invisible   ... and for every engine whose nodes are block, flex, grid containers or leaves (all the kinds
+                                         TaffyView::compute_child_layout dispatches on): NO premise on the algorithms is left
+     C01_grid_algorithm_satisfies_interface   WF and HQ without premise; H1 and H3 for containers on which the Rust code does not panic
+                                         (`grid_no_panic`: placement's checked arithmetic, absolute children's lines inside the implicit grid)
+     C01_grid_algorithm_NS_partial / _NS_refuted   NS holds without baseline alignment and FAILS with two baseline-aligned items in a row:
+                                         resolve_item_baselines (track_sizing.rs l.491) performs child layouts before the ComputeSize return
+                                         of grid/mod.rs l.315 -- a third source of the C01 "ComputeSize scribble" finding
+   Interface hypotheses: none left for engines of block / flex / grid containers and leaves as far as HiddenBlind and SetsZeroOnHidden go.
+
    Interface hypotheses (premises, validated on the implementation by the metamorphic oracle `vh c05 oracle` and -- WF, H1 --
    by the event trace): WF, H1 (EngineDirty.v), SetsZeroOnHidden, HiddenBlind.
 
    What this file does NOT give (audit, wave 5c):
    * the invisibility clause is CONDITIONAL: C05_hidden_blind_engine holds for HiddenBlind algorithms; HiddenBlind is proved for
-     the block resumption and stays a premise for the flex and grid tails (covered by the oracle only).  WF and H1 are proved
+     the block, flex and grid resumptions (waves 3-5).  WF and H1 are proved
      for the toy algorithms only, never for block_alg (trace-validated);
    * `block_alg` / `bl_memo` are hand models that NO correspondence runner executes (the runners execute Model/Block.v's in-flow
      kernel and Model/BlockTree.v); C06_block_resumption_runs_kernel ties the in-flow part of the resumption to that kernel, the
@@ -769,6 +791,134 @@ Theorem C01_flex_algorithm_NS_refuted :
     first_non_size 8 (flex_alg s st i) = Some (0%nat, true, true).
 Proof. exists ns_container, [ns_child 20; ns_child 30], ns_input. exact flex_alg_NS_refuted. Qed.
 
+(* ---------------------------------------------------------------------------------------------- the grid algorithm *)
+From TV Require Import Gen.GridTracksGen Model.GridTracks Model.GridAlgBase Model.GridAlg Model.TaffyEngine.
+From TV Require Import Proofs.GridAlgProg Proofs.GridAlgStruct Proofs.GridAlgIface Proofs.GridAlgVisits Proofs.TaffyEngine.
+
+(* what compute_grid_layout does at the tree interface, for every container style, child-style list and input: every event of the
+   resumption is a ComputeSize query to an in-flow child, a PerformLayout query / a stored layout on a child that is not display:none,
+   the canonical hidden pair on a display:none child (hidden_child_input = perform_child_layout(NONE, NONE, MAX_CONTENT, InherentSize,
+   FALSE); the continuation ignores the answer and stores Layout::with_order(n)), or Ret *)
+Theorem C05_grid_algorithm_shape :
+  forall (T : Type) (N : Num T) (s : GStyle T) (st : list (GStyle T)) (i : GIn T),
+    GShape st (grid_alg s st i) /\ gi_mode (hidden_child_input (T := T)) = PerformLayout.
+Proof. intros T N s st i. split; [apply grid_alg_shape|reflexivity]. Qed.
+
+(* the sizing phase of the model runs under a guard ("address in-flow children only"); the guard is redundant: the program it runs
+   only ever addresses children whose in-flow flag is set, and issues baseline layouts only through PBaseline *)
+Theorem C05_grid_sizing_guard_never_fires :
+  forall (T : Type) (N : Num T) (s : GStyle T) (st : list (GStyle T)) (i : GIn T) ec er m placed cc rc cols rows items0,
+    place s ec er (estimate_styles st) (in_flow_styles st) = PB.Ok (m, placed) ->
+    PL.mapM (make_item s (in_flow_styles st) cc rc cols rows) placed = PB.Ok items0 ->
+    forall cols0 rows0,
+      PGood (fun c => nth c (map g_in_flow st) false = true) true (fun _ => True)
+            (m_size_grid s (grid_pre s i) i (mkSS cols0 rows0 zero zero items0)).
+Proof. intros T N s st i ec er m placed cc rc cols rows items0. apply grid_sizing_guard_never_fires. Qed.
+
+(* the tests of the model's final loop are the conditions found in the source (translated on every run), and the translator checked the
+   branches: the hidden branch is the canonical pair, the absolute branch one align_and_position_item on the child; the node-addressing
+   calls of the grid sources on `tree` are exactly the sites the resumption models *)
+Theorem C05_grid_model_loops_are_source :
+  forall (T : Type) (N : Num T) (s : GStyle T),
+    oof_view s = (if grid_final_loop_hidden_test g_position g_bgm s then OHidden
+                  else if grid_final_loop_absolute_test g_position g_bgm s then OAbs s else OSkip) /\
+    grid_hidden_branch_is_canonical = true /\ grid_absolute_branch_is_local = true /\ grid_tree_calls_address_item_only = true.
+Proof. intros T N s. apply grid_loops_are_generated. Qed.
+
+Theorem C05_grid_algorithm_hidden_blind :
+  forall (T : Type) (N : Num T),
+    HiddenBlind (GStyle T) (GIn T) (LayoutOutput T) (GLay T) g_is_none grid_alg /\
+    (forall s st i, grid_alg s st i = grid_alg s (map g_hidden_view st) i) /\
+    (forall a b : GStyle T, g_is_none a = true -> g_is_none b = true -> g_hidden_view a = g_hidden_view b).
+Proof.
+  intros T N. split; [apply grid_alg_hidden_blind|]. split.
+  - intros s st i. apply grid_alg_none_rel. apply g_hidden_view_rel.
+  - intros a b Ha Hb. unfold g_hidden_view. rewrite Ha, Hb. reflexivity.
+Qed.
+
+Theorem C05_grid_algorithm_sets_zero_on_hidden :
+  forall (T : Type) (N : Num T),
+    SetsZeroOnHidden (GStyle T) (GIn T) (LayoutOutput T) (GLay T) g_is_none grid_alg g_zeroish /\
+    (forall n : nat, g_zeroish (g_with_order (T := T) n)).
+Proof. intros T N. split; [apply grid_alg_SZH|]. intros n. exists (Z.of_nat n). reflexivity. Qed.
+
+(* engines made of grid containers (sel s = true) and leaves *)
+Theorem C05_grid_engine_hidden_invisible :
+  forall (T : Type) (N : Num T) (sel : GStyle T -> bool) (leaf : GStyle T -> GIn T -> LayoutOutput T)
+         (mode : GIn T -> RunMode) (in_eqb : GIn T -> GIn T -> bool) (hidden_out : LayoutOutput T) (zero_lay : GLay T),
+    let algo := grid_leaf_algo sel leaf in
+    forall k k', hsim (GStyle T) g_is_none k k' ->
+    forall f i,
+      plain (GStyle T) (GIn T) (LayoutOutput T) (GLay T) mode g_is_none hidden_out algo f k i =
+      plain (GStyle T) (GIn T) (LayoutOutput T) (GLay T) mode g_is_none hidden_out algo f k' i /\
+      orel (GStyle T) (GIn T) (LayoutOutput T) (GLay T) g_is_none
+           (memo (GStyle T) (GIn T) (LayoutOutput T) (GLay T) mode in_eqb g_is_none hidden_out zero_lay algo f
+                 (fresh (GStyle T) (GIn T) (LayoutOutput T) (GLay T) zero_lay k) i)
+           (memo (GStyle T) (GIn T) (LayoutOutput T) (GLay T) mode in_eqb g_is_none hidden_out zero_lay algo f
+                 (fresh (GStyle T) (GIn T) (LayoutOutput T) (GLay T) zero_lay k') i).
+Proof.
+  intros T N sel leaf mode in_eqb hidden_out zero_lay algo k k' Hs f i.
+  apply C05_hidden_blind_engine; [|exact Hs]. apply grid_leaf_algo_hidden_blind.
+Qed.
+
+(* engines made of block, flex and grid containers and leaves: every kind of node TaffyView::compute_child_layout dispatches on.
+   Replacing display:none subtrees changes nothing elsewhere; no premise on the algorithms is left *)
+Theorem C05_taffy_engine_hidden_invisible :
+  forall (T : Type) (N : Num T) (is_grid : TStyle T -> bool) (kind : BFStyle T -> NodeKind) (pre : BStyle T -> BIn T -> BIn T)
+         (abs_child : @AbsChild T) (leaf : BFStyle T -> FIn T -> LayoutOutput T)
+         (mode : FIn T -> RunMode) (in_eqb : FIn T -> FIn T -> bool) (hidden_out : LayoutOutput T) (zero_lay : FLay T),
+    let algo := taffy_algo is_grid kind pre abs_child leaf in
+    forall k k', hsim (TStyle T) t_is_none k k' ->
+    forall f i,
+      plain (TStyle T) (FIn T) (LayoutOutput T) (FLay T) mode t_is_none hidden_out algo f k i =
+      plain (TStyle T) (FIn T) (LayoutOutput T) (FLay T) mode t_is_none hidden_out algo f k' i /\
+      orel (TStyle T) (FIn T) (LayoutOutput T) (FLay T) t_is_none
+           (memo (TStyle T) (FIn T) (LayoutOutput T) (FLay T) mode in_eqb t_is_none hidden_out zero_lay algo f
+                 (fresh (TStyle T) (FIn T) (LayoutOutput T) (FLay T) zero_lay k) i)
+           (memo (TStyle T) (FIn T) (LayoutOutput T) (FLay T) mode in_eqb t_is_none hidden_out zero_lay algo f
+                 (fresh (TStyle T) (FIn T) (LayoutOutput T) (FLay T) zero_lay k') i).
+Proof.
+  intros T N is_grid kind pre abs_child leaf mode in_eqb hidden_out zero_lay algo k k' Hs f i.
+  apply C05_hidden_blind_engine; [|exact Hs]. apply taffy_algo_hidden_blind.
+Qed.
+
+(* the interface hypotheses of the engine theorems of C01 / C15 / C05, for the engine's `mode` = the run mode of the input.
+   WF and HQ hold without premise; H1 and H3 speak of evaluations that run to the end: `grid_no_panic s st i` says that the Rust code does
+   not panic on this container (the checked arithmetic of placement succeeds and every box-generating absolute child's grid lines lie
+   inside the implicit grid: OriginZeroLine::into_track_vec_index asserts it) -- where it panics the model returns at once *)
+Theorem C01_grid_algorithm_satisfies_interface :
+  forall (T : Type) (N : Num T) (s : GStyle T) (st : list (GStyle T)) (i : GIn T),
+    (* WF *) WFAlg (GIn T) (LayoutOutput T) (GLay T) (@qi_mode T) (grid_alg s st i) /\
+    (* H1 *) (grid_no_panic s st i = true -> gi_mode i = PerformLayout ->
+              Visits (GIn T) (LayoutOutput T) (GLay T) (@qi_mode T) (seq 0 (length st)) (grid_alg s st i)) /\
+    (* H3 *) (grid_no_panic s st i = true -> gi_mode i = PerformLayout ->
+              SetsLast (GIn T) (LayoutOutput T) (GLay T) (nones (GStyle T) g_is_none st) (seq 0 (length st)) (grid_alg s st i)) /\
+    (* HQ *) NoHiddenSize (GIn T) (LayoutOutput T) (GLay T) (@qi_mode T) (nones (GStyle T) g_is_none st) (grid_alg s st i).
+Proof.
+  intros T N s st i. split; [apply grid_alg_WF|]. split; [apply grid_alg_H1|]. split; [apply grid_alg_H3|apply grid_alg_HQ].
+Qed.
+
+(* the premise of H1 / H3 is satisfiable and decidable by computation: the two-column baseline container of the NS witness *)
+Example C01_grid_no_panic_example : grid_no_panic gns_container [gns_child 20; gns_child 30] (gns_input_mode PerformLayout) = true.
+Proof. vm_compute. reflexivity. Qed.
+
+(* NS: without baseline alignment (neither align-items of the container nor align-self of any child) ... *)
+Theorem C01_grid_algorithm_NS_partial :
+  forall (T : Type) (N : Num T) (s : GStyle T) (st : list (GStyle T)) (i : GIn T),
+    gs_align_items s <> Some AE.AI_Baseline -> Forall (fun sc => gs_align_self sc <> Some AE.AI_Baseline) st ->
+    gi_mode i = ComputeSize -> SizeOnly (GIn T) (LayoutOutput T) (GLay T) (@qi_mode T) (grid_alg s st i).
+Proof. intros T N s st i. apply grid_alg_NS_partial. Qed.
+
+(* ... and not in general: `display:grid; grid-template-columns: auto auto; align-items: baseline` with children 10 x 20 and 10 x 30,
+   asked for its size under a max-content constraint: the FIRST event is a PerformLayout query to child 0 (resolve_item_baselines,
+   track_sizing.rs l.491).  On the implementation: `vh gridalg witness baseline` *)
+Theorem C01_grid_algorithm_NS_refuted :
+  exists (s : GStyle XQ) (st : list (GStyle XQ)) (i : GIn XQ),
+    gi_mode i = ComputeSize /\
+    ~ SizeOnly (GIn XQ) (LayoutOutput XQ) (GLay XQ) (@qi_mode XQ) (grid_alg s st i) /\
+    GridAlgVisits.first_non_size 4 (grid_alg s st i) = Some (0%nat, true).
+Proof. exists gns_container, [gns_child 20; gns_child 30], gns_input. exact grid_alg_NS_refuted. Qed.
+
 Print Assumptions C05_hide_all_zero.
 Print Assumptions C05_hidden_zero.
 Print Assumptions C05_hidden_zero_self_partial.
@@ -800,3 +950,13 @@ Print Assumptions C01_flex_algorithm_satisfies_interface.
 Print Assumptions C01_flex_algorithm_NS_partial.
 Print Assumptions C01_flex_algorithm_NS_refuted.
 Print Assumptions C05_bl_engine_hidden_invisible.
+Print Assumptions C05_grid_algorithm_shape.
+Print Assumptions C05_grid_sizing_guard_never_fires.
+Print Assumptions C05_grid_model_loops_are_source.
+Print Assumptions C05_grid_algorithm_hidden_blind.
+Print Assumptions C05_grid_algorithm_sets_zero_on_hidden.
+Print Assumptions C05_grid_engine_hidden_invisible.
+Print Assumptions C05_taffy_engine_hidden_invisible.
+Print Assumptions C01_grid_algorithm_satisfies_interface.
+Print Assumptions C01_grid_algorithm_NS_partial.
+Print Assumptions C01_grid_algorithm_NS_refuted.
